@@ -12,6 +12,7 @@ import Gpa.Model.Truncate
 import Gpa.Model.Telemetry
 import Gpa.Model.Logs
 import Gpa.Model.Ebpf
+import Gpa.Model.Attach
 import Gpa.Model.Provision
 import Gpa.Model.SetupFs
 import Gpa.Model.KeyKeeper
@@ -362,6 +363,14 @@ def stepLine (st : DState) (line : String) : DState × String :=
   | ["ebpf", "ipsegs", n] =>
       match n.toNat? with
       | some n => (st, ".".intercalate ((Ebpf.ipToSegs n).map toString) ++ s!" {Ebpf.segsToIp (Ebpf.ipToSegs n)}")
+      | none => (st, "bad-op")
+  | ["attach", "failed"] => (st, "err")
+  | "attach" :: "listed" :: ts =>
+      match ts.mapM Hex.decodeString with
+      | some targets =>
+          (st, match Attach.mountPath (.listed (targets.map fun t => ⟨t, []⟩)) with
+            | some m => "ok " ++ Hex.encode (Text.utf8 m.target.toList)
+            | none => "err")
       | none => (st, "bad-op")
   | ["prov", "new"] => ({ st with prov := Provision.Global.init }, showProv Provision.Global.init)
   | ["prov", "spawn", "ready", f] =>
